@@ -185,6 +185,11 @@ Definition check_selected (Sc : schema) (R : request_doc) (opname : name) (raw :
         | Done _ m_errs =>
             if agrees model obs then
               v_ok (classes Sc D E sp m_errs flags ++ (if multi then ["several-operations"] else [])
+                    ++ (match op_kind D with
+                        | OpSubscription => ["subscription-operation"]
+                        | OpMutation => ["mutation-operation"]
+                        | OpQuery => []
+                        end)
                     ++ (match levels D (Datatypes.S (List.length (frags D))) (op_sels D) with
                         | None => ["levels-undefined"]            (* expected never for a doc_ok document *)
                         | Some n => if Nat.ltb (default_fuel D) (Datatypes.S n) then ["levels-exceed-default-fuel"] else []
